@@ -8,13 +8,16 @@ A spec is a nested tuple  (name, kind, payload, children)  where children are sp
   kind 'list'   : returns [child calls...] (a nested list of lazy calls)
   kind 'catch'  : returns catch(child0, ValueError, recover) (recover returns ('recovered', msg))
   kind 'seq'    : returns seq([children])
+  kind 'all'    : returns catch_all([children], cls, rec): payload 0 = no recover (first error BY POSITION is re-raised
+                  once every child settled), 1 = recover_all on ValueError (all errors match: recover_all gets the list of
+                  values and errors), 2 = recover_all on KeyError (no error matches: first error by position re-raised)
 Options per call come from the spec's payload dict for containers: spec = (name, kind, payload, children, opts)
 with opts = dict(limits=..., cache_scope=..., context=...).
 Equal specs are equal calls (twins) — the eval key is a function of the spec.
 """
 from redun import task
 from redun.context import get_context
-from redun.scheduler import catch
+from redun.scheduler import catch, catch_all
 from redun.functools import seq
 
 redun_namespace = "rvvm"
@@ -23,6 +26,11 @@ redun_namespace = "rvvm"
 @task(version="1")
 def recover(error):
     return ("recovered", str(error))
+
+
+@task(version="1")
+def recover_all(values):
+    return ["recovered_all", [["err", str(v)] if isinstance(v, Exception) else ["val", v] for v in values]]
 
 
 @task(version="1")
@@ -52,6 +60,10 @@ def node(spec):
         return catch(calls[0], ValueError, recover)
     if kind == "seq":
         return seq(calls)
+    if kind == "all":
+        if payload == 0:
+            return catch_all(calls)
+        return catch_all(calls, ValueError if payload == 1 else KeyError, recover_all)
     raise AssertionError(kind)
 
 
